@@ -141,6 +141,8 @@ const SPECS: &[(&str, &[&str])] = &[
     ("type: optional\ninitPresent: true\nvalueType:\n  type: real\n  init: 1.0\n  scale: 0.5\n", &["null", "null", "0.25", "\"x\""]),
     ("type: int\ninit: 0\nscale: 3\n", &["1", "-7", "\"x\"", "1.5"]),
     ("type: real\ninit: 0.5\nscale: 0.1\nmin: 0\nmax: 1\n", &["0.25", "1.0", "2.0", "null"]),
+    // a root enum: a JSON string IS the encoding of its values (also strings that look like other JSON)
+    ("type: enum\nvalues: [red, green, \"true\", \"7\", \"{}\"]\ninit: red\n", &["\"green\"", "\"true\"", "\"7\"", "\"{}\"", "\"purple\"", "7"]),
     ("a:\n  type: bool\n  init: true\nb:\n  type: int\n  init: 2\n  scale: 1\n  min: 0\n  max: 9\n", &["{\"a\":false,\"b\":3}", "{\"a\":false}", "{\"a\":true,\"b\":10}", "{\"a\":true,\"b\":0,\"c\":1}"]),
 ];
 
@@ -191,10 +193,10 @@ pub fn gen_scenario(rng: &mut Rng, thorough: bool) -> Scenario {
         3..=5 => Some(rng.below(12) as usize),
         _ => Some(rng.below(nmax) as usize),
     };
-    let pool = rng.below(8) as u8;
+    let pool = rng.below(9) as u8;
     let sample_size = match rng.below(10) { 0..=4 => 1, 5..=6 => 2, 7..=8 => 3, _ => 4 };
-    let target = if rng.chance(1, 3) {
-        Some(match pool { 0 | 4 | 5 | 6 | 7 => rng.range(-6, 6) as f64, 1 => (rng.range(-3, 3) as f64) * 1e299, 2 => -(rng.below(60) as f64), _ => rng.below(60) as f64 })
+    let target = if rng.chance(1, 3) || pool == 8 {
+        Some(match pool { 8 => *rng.pick(&[0.0, 1.0, 1.5, -2.0, 3.25, 1e-300]), 0 | 4 | 5 | 6 | 7 => rng.range(-6, 6) as f64, 1 => (rng.range(-3, 3) as f64) * 1e299, 2 => -(rng.below(60) as f64), _ => rng.below(60) as f64 })
     } else { None };
     // an infinite target: +inf is reached by the first accepted result, -inf never
     let target = if target.is_some() && rng.chance(1, 8) { Some(if rng.chance(2, 3) { f64::INFINITY } else { f64::NEG_INFINITY }) } else { target };
@@ -255,6 +257,7 @@ fn gen_value(rng: &mut Rng, pool: u8, counter: u64) -> f64 {
         5 => 1.0,                                                       // plateau: every result ties
         6 => if rng.chance(9, 10) { 1.0 } else { 2.0 + counter as f64 }, // plateau with occasional worse results
         // gradual underflow: subnormal and tiny objective values (accepted like any other finite value), signed zeros
+        // pool 8 is handled by the caller (values one or a few ulps around the target)
         7 => *rng.pick(&[5e-324, -5e-324, 1e-310, -3e-320, 2.5e-308, -2.5e-308, f64::MIN_POSITIVE, 1e-300, -1e-300, 0.0, -0.0, 1.0, -1.0]),
         _ => rng.range(-50, 50) as f64 / 8.0,
     }
@@ -411,7 +414,14 @@ pub fn run_scenario(sc: &Scenario, sh: Arc<Mutex<Shared>>) -> J {
                 let o = if fail_round {
                     if rng.below(sc.fail_permille + sc.nonfinite_permille) < sc.fail_permille { Outcome::Fail(1 + counter) }
                     else { Outcome::NonFinite(*rng.pick(&[f64::NAN, f64::INFINITY, f64::NEG_INFINITY])) }
-                } else if rng.below(1000) < sc.rej_permille { Outcome::Rej } else { Outcome::Acc(gen_value(&mut rng, sc.pool, counter)) };
+                } else if rng.below(1000) < sc.rej_permille { Outcome::Rej } else if sc.pool == 8 {
+                    // within a few ulps of the target, on either side, and the target itself
+                    let t = sc.target.filter(|t| t.is_finite()).unwrap_or(0.0);
+                    let k = rng.range(-3, 8);
+                    let mut x = t;
+                    for _ in 0..k.unsigned_abs() { x = if k > 0 { f64::from_bits(if x > 0.0 { x.to_bits() + 1 } else if x < 0.0 { x.to_bits() - 1 } else { 1 }) } else { f64::from_bits(if x > 0.0 { x.to_bits() - 1 } else if x < 0.0 { x.to_bits() + 1 } else { (1u64 << 63) | 1 }) }; }
+                    Outcome::Acc(x)
+                } else { Outcome::Acc(gen_value(&mut rng, sc.pool, counter)) };
                 match &o {
                     Outcome::Fail(k) => events.push(json!({"k": "c", "seed": slot.seed, "res": {"fail": k}})),
                     Outcome::NonFinite(_) => events.push(json!({"k": "c", "seed": slot.seed, "res": {"fail": 0}})),
